@@ -60,6 +60,7 @@ type World struct {
 	abortedReq       bool
 	addressed        map[string]bool
 	restartAt        int
+	openedAt         time.Time // when the server was created (its tickers count from here)
 	lenientUpload5xx bool
 	closing          bool // Close was called while requests are in flight: only liveness is judged
 	lastGCBusy       bool
@@ -78,6 +79,7 @@ func (w *World) open() {
 	if t := simrt.Cur(); t != nil {
 		t.Gen = w.gen
 	}
+	w.openedAt = time.Now()
 	w.srv = New(w.k.config(w.root))
 	w.closed = false
 }
